@@ -22,6 +22,7 @@ TOp == /\ Ev("Op")
             [] R.op = "callout" -> CallOut(R.o, R.i)
             [] R.op = "rmco" -> \E k \in 1..2 : RmCallOut(R.o, k)
             [] R.op = "many" -> Many(R.o, R.i)
+            [] R.op = "clones" -> ManyClones(R.o)
             [] R.op = "unmany" -> Unmany(R.o)
             [] R.op = "inp" -> InputTo(R.o, R.i)
             [] R.op = "line" -> InputLine
